@@ -179,11 +179,43 @@ def _close(a, b):
     return abs(a - b) <= 1e-9 * max(1.0, abs(a), abs(b))
 
 
+def _replay_copy_summaries():
+    """a file that stores no summaries (as written by other software): rtdc_copy completes them"""
+    import pathlib, tempfile, warnings
+    import h5py
+    import numpy as np
+    from dclab.rtdc_dataset import rtdc_copy
+    with tempfile.TemporaryDirectory(prefix="c20c_") as td, warnings.catch_warnings():
+        warnings.simplefilter("ignore")
+        src, dst = pathlib.Path(td) / "src.rtdc", pathlib.Path(td) / "dst.rtdc"
+        feats = {"deform": np.array([0.01, np.nan, 0.05, 0.02]), "frame": np.array([1, 2, 3, 19], dtype=np.uint64),
+                 "fl1_npeaks": np.array([1, 2, 2, 0], dtype=np.int16)}
+        with h5py.File(src, "w") as h5:
+            for k, v in feats.items():
+                h5.create_dataset("events/" + k, data=v)
+            h5.attrs["experiment:event count"] = 4
+        with h5py.File(src, "r") as hs, h5py.File(dst, "w") as hd:
+            rtdc_copy(hs, hd)
+        with h5py.File(dst, "r") as hd:
+            for k, v in feats.items():
+                at = hd["events"][k].attrs
+                want = {"min": np.nanmin(v), "max": np.nanmax(v), "mean": np.nanmean(v.astype(float))}
+                for key, w_ in want.items():
+                    if key not in at:
+                        return {"failed": True, "detail": f"the copy of '{k}' (stored without summaries) has no '{key}' attribute"}
+                    if not _close(float(at[key]), float(w_)):
+                        return {"failed": True, "detail": f"copy of a file without stored summaries: {k}.attrs['{key}'] == "
+                                                          f"{float(at[key])}, the values {v.tolist()} give {float(w_)}"}
+    return {"failed": False, "detail": "completed summaries equal the nan-summaries of the copied values"}
+
+
 def replay(unit_name, inp, obligation=""):
     import pathlib, tempfile, warnings
     import h5py
     import numpy as np
     from dclab.rtdc_dataset.writer import RTDCWriter
+    if unit_name.startswith("rtdc_copy[summaries"):
+        return _replay_copy_summaries()
     if unit_name.startswith("H5ScalarEvent."):
         return _replay_h5scalar(unit_name.split(".")[1], inp)
     if unit_name.startswith("ChildScalar."):
@@ -354,6 +386,85 @@ class ChildScalarSummary(Contract):
 
 
 UNITS += [H5ScalarSummary(k) for k in ("min", "max", "mean")]
+
+
+class CopyDataset(Contract):
+    """h5ds_copy(src_loc, src_name, dst_loc, ...): dst_loc[name] becomes a dataset with the content and
+    the attributes of the source (C08); returns it"""
+    name = "h5ds_copy"
+    trusted = True
+
+    def __call__(self, interp, src_loc=None, src_name=None, dst_loc=None, dst_name=None, **kw):
+        src = h5model._grp_getitem(interp, src_loc, src_name)
+        name = dst_name or src_name
+        interp.heap_write(dst_loc)
+        c = src.fields["content"]
+        cp = new_dataset(interp.ctx, SArr(c.n, c.a, c.kind, dtype=c.dtype), name=f"{dst_loc.fields['name']}/{name}",
+                         dtype=src.fields.get("dtype"),
+                         attrs=new_attrs(interp.ctx, d=dict(src.fields["attrs"].fields["d"])))
+        cp.fields["content"].item_shape = ()
+        dst_loc.fields["members"][name] = cp
+        return cp
+
+
+class CopySummaries(Contract):
+    """rtdc_copy completes the summaries: a scalar feature copied from a file that stores no (or only some)
+    min/max/mean attributes has all three afterwards, each equal to the NaN-ignoring summary of the copied
+    values; stored ones are carried over as they are"""
+    path = "dclab/rtdc_dataset/copier.py"
+    module = "dclab.rtdc_dataset.copier"
+    qualname = "rtdc_copy"
+    params = ("src_h5file", "dst_h5file", "features", "include_basins", "include_logs", "include_tables", "meta_prefix")
+    native = {"feature_exists", "scalar_feature_exists"}
+
+    def __init__(self, kind):
+        self.kind = kind
+        self.feat = "deform" if kind == "F" else "frame"
+        self.name = f"rtdc_copy[summaries of a scalar {'float' if kind == 'F' else 'integer'} feature]"
+        super().__init__()
+        self.callees = {"h5ds_copy": CopyDataset()}
+
+    def inputs(self, ctx):
+        dt = np.dtype("float64") if self.kind == "F" else np.dtype("int64")
+        content = ctx.arr("content", self.kind, inp=True, dtype=dt)
+        content.item_shape = ()
+        self._content = content
+        d = {}
+        self._stored = {}
+        for key in ("min", "max", "mean"):
+            if ctx.decide(ctx.bool("has_" + key, inp=True)):
+                v = SF(ctx.const("attr_" + key, F))
+                d[key] = v
+                self._stored[key] = v
+        src_ds = new_dataset(ctx, content, dtype=dt, name="/events/" + self.feat, attrs=new_attrs(ctx, d=d))
+        src = new_group(ctx, members={"events": new_group(ctx, members={self.feat: src_ds}, name="/events")}, name="/")
+        dst = new_group(ctx, name="/")
+        dst.fields["name"] = "/dst"
+        self._dst = dst
+        return {"src_h5file": src, "dst_h5file": dst, "features": "all", "include_basins": False,
+                "include_logs": False, "include_tables": False, "meta_prefix": ""}
+
+    def requires(self, ctx, a):
+        reqs = [("the feature is not empty", self._content.n >= 1)]
+        if self.kind == "F":
+            reqs.append(("entries are finite or NaN", f_ok(self._content, "c")))
+        for key, v in self._stored.items():
+            reqs.append((f"SInv in the source: stored {key}", summ_pred(ctx, key, v, self._content)))
+        return reqs
+
+    def ensures(self, ctx, old, a, result):
+        ev = self._dst.fields["members"].get("events")
+        ds_ = ev.fields["members"].get(self.feat) if ev is not None else None
+        if ds_ is None:
+            return [("the feature is copied", z3.BoolVal(False))]
+        d = ds_.fields["attrs"].fields["d"]
+        posts = [("the copy has all three summaries", z3.BoolVal(all(k in d for k in ("min", "max", "mean"))))]
+        posts += sinv(ctx, ds_.fields["attrs"], self._content)
+        return posts
+
+
+UNITS += [CopySummaries("F"), CopySummaries("int")]
+TRUSTED += [CopyDataset()]
 UNITS += [ChildScalarSummary(k) for k in ("min", "max", "mean")]
 TRUSTED += [ParentGetitem()]
 
